@@ -275,8 +275,23 @@ func main() {
 			problem("root %s is not a node of the call graph", r)
 		}
 	}
+	// A compare RUN is the body of device.ApproveOrCompare with isCompare = true: besides
+	// (*state).compare everything else that body calls — set-up, the CloseConnection of every
+	// backend, Abort — except (*state).approve (the skeleton theorems pin that approve stands in
+	// the else branch of `if isCompare`).  These callees are roots as well.
+	runBody := mod + "pkg/device.ApproveOrCompare$1"
+	if !kept[runBody] {
+		problem("%s is not a node of the call graph", runBody)
+	}
+	var runRoots []string
+	for _, v := range cadj[runBody] {
+		if strings.Contains(v, mod) && !strings.HasSuffix(v, ").approve") && v != roots[0] && v != roots[1] {
+			runRoots = append(runRoots, v)
+		}
+	}
+	sort.Strings(runRoots)
 	reach := map[string]bool{}
-	stack := append([]string{}, roots...)
+	stack := append(append([]string{}, roots...), runRoots...)
 	for len(stack) > 0 {
 		v := stack[len(stack)-1]
 		stack = stack[:len(stack)-1]
@@ -460,6 +475,8 @@ func main() {
 		b.WriteString("]\n\n")
 	}
 	list("roots", roots)
+	b.WriteString("/-- what else the body of device.ApproveOrCompare calls in a compare run (everything but (*state).approve) -/\n")
+	list("runRoots", runRoots)
 	list("targets", targets)
 	list("applyImpls", applyImpls)
 	var sinkList []string
